@@ -78,6 +78,8 @@ struct C01 : Scenario {
     if (r.op == VK_EXIT) { a.push_back({BK_CRASH, ALT_MACHINE_CRASH, 0}); return; }
     a.push_back({BK_CRASH, ALT_KILL, 0});
     if (!signalled) a.push_back({BK_ENV, ALT_SIGNAL, SIGALRM});   // the program's own 24-hour timer (or anyone's SIGALRM) may fire before any call
+    // any other signal the program has chosen to *catch* may arrive before any call as well (one it does not catch ends it: that is ALT_KILL above)
+    if (!signalled) for (int sg : {SIGTERM, SIGHUP, SIGINT, SIGQUIT, SIGUSR1}) if (p.sig[sg].kind == 2) a.push_back({BK_ENV, ALT_SIGNAL, sg});
     a.push_back({BK_CRASH, ALT_MACHINE_CRASH, 0});
     Ofd *o = (r.op == VK_READ || r.op == VK_WRITE || r.op == VK_FSYNC || r.op == VK_FTRUNCATE || r.op == VK_FSTAT) ? w.O(p, r.a[0]) : nullptr;
     switch (r.op) {
